@@ -158,6 +158,8 @@ template <typename T>
 struct traced_plain_fn
 {
     call_ctx<T>* c;
+    mutable long seq;   // state of the function object itself: the library evaluates the object it was given, not copies of it
+    traced_plain_fn(call_ctx<T>* c_) : c(c_), seq(0) {}
     T operator()(hep::mc_point<T> const& p, hep::projector<T>& pr) const
     {
         pr.add(0, p.point()[0], T(1));
@@ -169,7 +171,7 @@ struct traced_plain_fn
         x.draw_event();
         bool unit = p.point().size() == x.cfg.d;
         for (T u : p.point()) unit = unit && (u >= T() && u < T(1));
-        if (x.log_calls) ev("IntBegin").i("unitOK", unit ? 1 : 0).i("chan", -1).i("csum", 0).i("caddr", 0).emit();
+        if (x.log_calls) ev("IntBegin").i("fseq", seq++).i("unitOK", unit ? 1 : 0).i("chan", -1).i("csum", 0).i("caddr", 0).emit();
         value_spec const& vs = x.spec();
         T w = T(1);
         if (vs.wreq) { if (x.log_calls) ev("WeightReq").emit(); w = p.weight(); }
@@ -183,6 +185,8 @@ template <typename T>
 struct traced_vegas_fn
 {
     call_ctx<T>* c;
+    mutable long seq;   // state of the function object itself: the library evaluates the object it was given, not copies of it
+    traced_vegas_fn(call_ctx<T>* c_) : c(c_), seq(0) {}
     T operator()(hep::vegas_point<T> const& p, hep::projector<T>& pr) const
     {
         pr.add(0, p.point()[0], T(1));
@@ -208,7 +212,7 @@ struct traced_vegas_fn
                 expect *= (r - l) * T(x.pdf->bins());
             }
         }
-        if (x.log_calls) ev("IntBegin").i("unitOK", unit ? 1 : 0).i("chan", -1).i("csum", 0).i("caddr", 0).emit();
+        if (x.log_calls) ev("IntBegin").i("fseq", seq++).i("unitOK", unit ? 1 : 0).i("chan", -1).i("csum", 0).i("caddr", 0).emit();
         value_spec const& vs = x.spec();
         // the weight is not lazy for VEGAS; it is always known to the driver through the grid
         T w = expect;
@@ -223,6 +227,8 @@ template <typename T>
 struct traced_mc_fn
 {
     call_ctx<T>* c;
+    mutable long seq;   // state of the function object itself: the library evaluates the object it was given, not copies of it
+    traced_mc_fn(call_ctx<T>* c_) : c(c_), seq(0) {}
     T operator()(hep::multi_channel_point<T> const& p, hep::projector<T>& pr) const
     {
         // note: projector.add asks the point for its weight; only do so if the integrand did anyway
@@ -237,7 +243,7 @@ struct traced_mc_fn
         bool unit = true;
         for (T u : p.point()) unit = unit && (u >= T() && u < T(1));
         if (x.log_calls)
-            ev("IntBegin").i("unitOK", unit ? 1 : 0).i("chan", (long long) p.channel()).i("csum", ids().id("c:" + hexvec(p.coordinates())))
+            ev("IntBegin").i("fseq", seq++).i("unitOK", unit ? 1 : 0).i("chan", (long long) p.channel()).i("csum", ids().id("c:" + hexvec(p.coordinates())))
                 .i("caddr", addr_id(&p.coordinates())).emit();
         value_spec const& vs = x.spec();
         T w = T();
